@@ -130,3 +130,18 @@ func fmtResp(resp *gw.Resp) string {
 }
 
 var _ = strings.Join
+
+func readFileMax(path string, max int64) ([]byte, error) {
+	f, err := os.Open(path)
+	if err != nil {
+		return nil, err
+	}
+	defer f.Close()
+	fi, err := f.Stat()
+	if err != nil || fi.IsDir() {
+		return nil, err
+	}
+	b := make([]byte, max)
+	n, _ := f.Read(b)
+	return b[:n], nil
+}
